@@ -78,12 +78,18 @@ pub(crate) struct FlushWorker<T: Types> {
 impl<T: Types> FlushWorker<T> {
     /// When starting, there is at most one open chunk file that is not sync.
     pub(crate) fn spawn(self) {
+        #[cfg(feature = "verif-hooks")]
+        let verif_child = crate::verif_hooks::spawn_begin();
         std::thread::Builder::new()
             .name("raft_log_wal_flush_worker".to_string())
             .spawn(move || {
+                #[cfg(feature = "verif-hooks")]
+                let _verif_guard = crate::verif_hooks::thread_enter(verif_child);
                 self.run();
             })
             .expect("Failed to start sync worker thread");
+        #[cfg(feature = "verif-hooks")]
+        crate::verif_hooks::spawn_end(verif_child);
     }
 
     pub(crate) fn new(
@@ -109,7 +115,10 @@ impl<T: Types> FlushWorker<T> {
 
     fn run_inner(mut self) -> Result<(), io::Error> {
         loop {
+            #[cfg(not(feature = "verif-hooks"))]
             let req = self.rx.recv();
+            #[cfg(feature = "verif-hooks")]
+            let req = crate::verif_hooks::recv(&self.rx);
             let Ok(SeqRequest { seq, req }) = req else {
                 log::info!("FlushWorker input channel closed, quit");
                 return Ok(());
@@ -124,6 +133,11 @@ impl<T: Types> FlushWorker<T> {
             // Write requests should be batched to maximize throughput.
 
             let batch_size = 1024;
+            #[cfg(feature = "verif-hooks")]
+            let batch_size =
+                crate::verif_hooks::knob("flush_batch", batch_size);
+            #[cfg(feature = "verif-hooks")]
+            crate::verif_hooks::yield_point("batch_drain");
 
             let mut batch = Vec::with_capacity(batch_size);
             batch.push(w);
